@@ -159,7 +159,7 @@ def _dumpstruct(
 
         if color:
             foreground, background = colors[ci % len(colors)]
-            palette.append((structure._sizes[field._name], background))
+            palette.append((structure._sizes.get(field._name, 0), background))
         ci += 1
 
         value = getattr(structure, field._name)
